@@ -7,7 +7,7 @@
     The theorems hold for every flag configuration with the listed repairs; [_refuted] theorems exhibit
     a witness for each missing repair (replayed on the implementation by harness/c12.py). *)
 From Coq Require Import NArith List Bool.
-From Pi2 Require Import ML.Syntax Py.Pattern Py.PatFacts Py.MetaFacts Py.ExpandFacts Py.Termination Py.Total Py.Bridge Py.Current Py.Witness.
+From Pi2 Require Import ML.Syntax Py.Pattern Py.PatFacts Py.MetaFacts Py.ExpandFacts Py.Termination Py.Total Py.Bridge Py.Current Py.NaryFacts Py.Witness.
 Import ListNotations.
 Open Scope N_scope.
 
@@ -248,3 +248,21 @@ Proof. vm_compute. repeat split; reflexivity. Qed.
 (** the D9d witness is exactly what the predicate excludes *)
 Example C12_ex_current_corner : corner_free [1] [] drop_pat = false.
 Proof. reflexivity. Qed.
+
+(** ---- deconstruct_nary_application (proofs/kore.py): head and arguments of a pattern are the head and arguments of
+    its expansion ([p_spine] = the application spine of a notation-free pattern) ---- *)
+Theorem C12_deconstruct_nary : forall f, f_mv_keep_subst f = true -> f_inst_extend f = true ->
+  forall n p h args, decon_nary f n p = Some (h, args) -> p_spine (expand f p) = (expand f h, map (expand f) args).
+Proof. exact decon_nary_expand. Qed.
+Theorem C12_deconstruct_nary_terminates : forall f, f_inst_extend f = true ->
+  forall n p, (dm p one <= n)%nat -> exists ha, decon_nary f n p = Some ha.
+Proof. exact decon_nary_terminates. Qed.
+Theorem C12_deconstruct_nary_current_code : forall se ss n p h args,
+  corner_free se ss p = true -> decon_nary flags_current n p = Some (h, args) ->
+  p_spine (expand flags_current p) = (expand flags_current h, map (expand flags_current) args).
+Proof. exact (fun se ss => decon_nary_expand_cur se ss flags_current eq_refl). Qed.
+Print Assumptions C12_deconstruct_nary_current_code.
+Example C12_ex_deconstruct_nary :
+  decon_nary flags_current 30 (PInst (PApp (PApp (PSym 7) (pphi 1)) (pphi 0)) [(1, neg_p (PEVar 1)); (0, PEVar 2)]) =
+  Some (PSym 7, [neg_p (PEVar 1); PEVar 2]).
+Proof. vm_compute. reflexivity. Qed.
